@@ -61,6 +61,7 @@ func (m *Machine) sx() *sxM {
 			return s
 		}
 	}
+	paths = c.view(m.fn).flagNorm(paths) // `end, closed = i, true; break` reads as the return it stands for
 	for _, p := range paths {
 		for i, st := range p.Steps {
 			if st.Kind != "loop" {
